@@ -210,7 +210,10 @@ def history_steps(rng, nsteps, interrupts=True, deletes=True, observe="restore_a
             nb += 1
         elif deletes and r < 0.8:
             k = rng.randrange(0, len(live) + 1)
-            sel = sorted(rng.sample(live, k))
+            # (the request is a list: in any order)
+            sel = rng.sample(live, k)
+            if rng.random() < 0.6:
+                sel.sort()
             steps.append({"op": "delete", "bands": sel, "dry": rng.random() < 0.2})
             if not last_incomplete and not steps[-1]["dry"]:
                 live = [b for b in live if b not in sel]
@@ -833,7 +836,9 @@ def gen_c05(tier, seed):
             # make sure the newest band is complete so that delete is allowed to run
             steps.append(bk(rng.choice(OPTS_POOL[:5])))
             nb = sum(1 for s in steps if s["op"] == "backup")
-            sel = sorted(rng.sample(range(nb), rng.randrange(0, nb + 1)))
+            sel = rng.sample(range(nb), rng.randrange(0, nb + 1))
+            if i % 4 != 3:
+                sel.sort()
             fam = "random"
         base = {"op": "delete", "bands": sel, "dry": False}
         kind = ["dry", "crash", "fail-reads", "plain"][(i // 2) % 4]
@@ -976,6 +981,20 @@ def gen_c06(tier, seed):
                       "then": [{"op": "restore_all"}, {"op": "validate"}]})
         scens.append({"id": sid("C06", "s", i), "props": ["C06"], "mode": "conc", "tags": ["gc-vs-backup", "del" + "".join(map(str, dele))],
                       "steps": steps})
+    # a kill and an interleaving in one scenario: an earlier delete was killed and left its lock; a
+    # delete --break-lock then races a backup through the moment between removing the stale lock and
+    # writing its own
+    for i in range(4 if tier == "quick" else 40):
+        steps, o, nb = conc_archive(rng)
+        steps = steps[:-1] + [{"op": "delete", "bands": [0] if i % 2 else [], "dry": False, "crash_at": rng.randrange(4, 14)}, steps[-1]]
+        dele = rng.choice([[0], [], [nb - 1]])
+        steps.append({"op": "conc_sweep",
+                      "actors": [bk(o, actor="bk"), {"op": "delete", "bands": dele, "actor": "gc", "break_lock": True}],
+                      "preemptions": 2, "sample": 60 if tier == "quick" else 1500, "seed": seed * 100 + 50 + i,
+                      "screen": 3, "screen_cap": 1000 if tier == "quick" else 40000,
+                      "then": [{"op": "restore_all"}, {"op": "validate"}]})
+        scens.append({"id": sid("C06", "stale", i), "props": ["C06"], "mode": "conc", "tags": ["gc-vs-backup", "stale-lock", "break-lock"],
+                      "steps": steps})
     return scens, mcs
 
 
@@ -1002,6 +1021,16 @@ def gen_c07(tier, seed):
         scens.append({"id": sid("C07", "bigid", i), "props": ["C07"], "mode": "clean", "no_create": True, "tags": ["big-ids"],
                       "steps": [base["steps"][0], {"op": "tree", "tree": t}, bk(rng.choice(OPTS_POOL[:5])), {"op": "tree", "tree": mut(rng, t, maxlen=4)},
                                 bk(rng.choice(OPTS_POOL[:5])), {"op": "versions"}, {"op": "restore", "band": -1}]})
+    # hundreds of versions in one archive directory (the file system then lists them in hash order, not
+    # in creation or numeric order): the next id is still above all of them, "latest" is the highest
+    for i, N in enumerate([300] if tier == "quick" else [300, 700]):
+        lay = [{"st": "complete" if j != N - 2 else "incomplete", "hunks": [[1]], "off": 0} for j in range(N)]
+        base = c08_scenario(sid("C07", "manybands", i), lay, ["/a"], list(range(N)), ["many-versions"])
+        t = random_tree(rng, nmax=3, pre_epoch=False, maxlen=4)
+        scens.append({"id": sid("C07", "manybands", i), "props": ["C07"], "mode": "clean", "no_create": True, "tags": ["many-versions"],
+                      "steps": [base["steps"][0], {"op": "versions"}, {"op": "restore", "band": -1}, {"op": "tree", "tree": t}, bk(OPTS_POOL[0]),
+                                {"op": "versions"}, {"op": "restore", "band": -1}, {"op": "delete", "bands": [N - 1, 5, N], "dry": False}, {"op": "versions"},
+                                bk(OPTS_POOL[1]), {"op": "versions"}, {"op": "restore", "band": -1}]})
     # a backup that fails part-way removes and overwrites nothing either: every write / create_dir of a
     # second backup made to fail in turn (and every kill point), over an archive whose d/xyz
     # directories the new blocks share with old ones
@@ -1979,7 +2008,7 @@ def run_check(prop, tier, seed, t0, keep=False):
     else:
         scens = gen_out
     own = len(scens)
-    scens = [cvlib.odd_source(cvlib.age_scenario(cvlib.fix_scenario(x))) for x in scens + common_pool(prop, tier, seed)]
+    scens = [cvlib.odd_umask(cvlib.odd_source(cvlib.age_scenario(cvlib.fix_scenario(x)))) for x in scens + common_pool(prop, tier, seed)]
     by_id = {s["id"]: s for s in scens}
     mc = list(mc)
     for entry in MODELS.get(prop, {}).get(tier, []):
